@@ -1,6 +1,7 @@
 import RsslVerif.Driver.C03
 import RsslVerif.Model.StmtX
 import RsslVerif.Model.Intrinsics
+import RsslVerif.Model.TypeMods
 /-! Line-protocol front end of the extended C03 model (`C03.progx`, `C03.typex`); formats are described in
 `harness/src/c03/ext.rs`.  Requests of the old streams are answered by `Driver.C03`; `C03.prog` requests are in addition
 run through the extended model and the two answers must agree (otherwise the answer is `MODEL-MISMATCH ..`, which the
@@ -10,7 +11,7 @@ open RsslVerif.Gen.RankTable RsslVerif.Gen.TypingTables RsslVerif.Model.Conv Rss
 open RsslVerif.Model.IrTypingX RsslVerif.Model.ElabX RsslVerif.Model.StmtX RsslVerif.Model.Intrinsics RsslVerif.Driver
 open RsslVerif.Model.IrTyping (FuncSig)
 open RsslVerif.Model.Elab (Err)
-open RsslVerif.Driver.C03 (parseTy showTy showETy parseFunc Sx readSx panicFile)
+open RsslVerif.Driver.C03 (parseTy showTy showETy parseFunc Sx readSx panicFile showMods parseLayer)
 
 def parseOther (s : String) : Option OtherDef :=
   if s.startsWith "S(" && s.endsWith ")" then
@@ -275,7 +276,7 @@ def showOldStyle : Except Err (IStmts × Env) → String
   | .error (.panic s) => "panic " ++ panicFile s
   | .error (.unsupported w) => "unsupported " ++ w
 
-def handle (op : String) (args : List String) : String :=
+def handleX (op : String) (args : List String) : String :=
   match op, args with
   | "C03.progx", [others, vars, funcs, ret, body, _expect] =>
     match parseEnvX others vars funcs ret, (readSx body).bind toBody with
@@ -294,5 +295,83 @@ def handle (op : String) (args : List String) : String :=
     | _, _ => old
   | "C03.src", _ => "unsupported raw source"
   | _, _ => RsslVerif.Driver.C03.handle op args
+
+/-! ## `C03.decl`: declarations through typedef chains / template parameters (format: harness/src/c03/decl.rs) -/
+
+open RsslVerif.Model.TypeMods in
+def parseKws (s : String) : Option (List Kw) :=
+  if s == "0" || s == "-" then some [] else
+  sequenceOpt (s.toList.map fun c => match c with
+    | 'c' => some Kw.const | 'v' => some Kw.volatile | 'r' => some Kw.rowMajor | 'k' => some Kw.columnMajor
+    | 'u' => some Kw.unorm | 'n' => some Kw.snorm | _ => none)
+
+open RsslVerif.Model.TypeMods in
+/-- what `parse_type_modifier` asks about the type below the modifiers -/
+def shapeOf : Layer → Shape
+  | .scalar s => ⟨false, s == .float32⟩
+  | .vector s _ => ⟨false, s == .float32⟩
+  | .matrix s _ _ => ⟨true, s == .float32⟩
+  | _ => ⟨false, false⟩
+
+open RsslVerif.Model.TypeMods in
+def posOf : String → Option Pos
+  | "local" => some .localVar | "elem" => some .localVar | "param" => some .parameter | "static" => some .global
+  | "member" => some .structMember | _ => none
+
+/-- the component written by the `comp` form, by the kind of the declared type -/
+def compName : Layer → Option String
+  | .scalar _ => some "x" | .vector _ _ => some "y" | .matrix _ _ _ => some "_m01" | .other 0 => some "q" | _ => none
+
+open RsslVerif.Model.TypeMods in
+/-- the declared modifier comes from `Model.TypeMods.declMods`; the write is then judged by the elaboration model on the
+    equivalent `C03.progx` program whose variable has the merged type -/
+def handleDecl (layer carrier layers use storage write : String) : String :=
+  match parseLayer layer, (if layers == "-" then some [] else sequenceOpt ((layers.splitOn ",").map parseKws)),
+        parseKws use, posOf storage with
+  | some l, some ls, some u, some pos =>
+    if carrier != "td" && carrier != "tp" then "unsupported request" else
+    match declModsAt (shapeOf l) ls u pos with
+    | .error e => "reject " ++ e.name
+    | .ok m =>
+      let decl := showTy ⟨m.toModifier, l⟩
+      let plain := showTy ⟨{}, l⟩
+      let s0 := "S(q:-/s.Int32,v:-/v.Float32.3)"
+      let envTgt : Option (String × String × String) := match storage with
+        | "local" => some (s0, decl, "(var 0)")
+        | "param" => some (s0, "p:" ++ decl, "(var 0)")
+        | "static" => some (s0, "s:" ++ decl, "(var 0)")
+        | "member" => some (s0 ++ ";S(mq:" ++ decl ++ ")", "-/o.1", "(mem (var 0) mq)")
+        | "elem" => some (s0 ++ ";A(" ++ decl ++ ",2)", "-/o.1", "(idx (var 0) (lit IntLiteral))")
+        | _ => none
+      match envTgt with
+      | none => "unsupported request"
+      | some (others, v0, t) =>
+        let stmt : Option String := match write with
+          | "none" => some ""
+          | "read" => some ("(expr (bin Assignment (var 1) " ++ t ++ "))")
+          | "assign" => some ("(expr (bin Assignment " ++ t ++ " (var 1)))")
+          | "opassign" => some ("(expr (bin SumAssignment " ++ t ++ " (var 1)))")
+          | "inc" => some ("(expr (un PostfixIncrement " ++ t ++ "))")
+          | "preinc" => some ("(expr (un PrefixIncrement " ++ t ++ "))")
+          | "out" => some ("(expr (call 0 " ++ t ++ "))")
+          | "comp" => (compName l).map fun c => "(expr (bin Assignment (mem " ++ t ++ " " ++ c ++ ") (lit IntLiteral)))"
+          | "elemw" => some ("(expr (bin Assignment (idx " ++ t ++ " (lit IntLiteral)) (lit IntLiteral)))")
+          | _ => none
+        match stmt with
+        | none => "unsupported request"
+        | some "" => "decl " ++ showMods m.toModifier ++ " accept"
+        | some st =>
+          let ans := handleX "C03.progx" [others, v0 ++ "," ++ plain, "0:1:-/s.Int32:out/" ++ plain, "void", "(block " ++ st ++ ")", "any"]
+          let verdict :=
+            if ans.startsWith "accept" then "accept"
+            else if ans.startsWith "reject " then ans
+            else ans
+          if ans.startsWith "unsupported" then ans else "decl " ++ showMods m.toModifier ++ " " ++ verdict
+  | _, _, _, _ => "unsupported request"
+
+def handle (op : String) (args : List String) : String :=
+  match op, args with
+  | "C03.decl", [layer, carrier, layers, use, storage, write] => handleDecl layer carrier layers use storage write
+  | _, _ => handleX op args
 
 end RsslVerif.Driver.C03X
